@@ -106,6 +106,7 @@ def run(ctx, replay):
     events = ctx.run_shards(binary, items, timeout=1500)
     org_events = [e for e in events if e["e"] == "OrgTable"]
     events = [e for e in events if e["e"] == "Row"]
+    ctx.log("real code answered %d rows" % len(events))
     if len(events) != len(sel):
         raise vlib.Infra("harness answered %d of %d rows" % (len(events), len(sel)))
     ev_by_t = {e["t"]: e for e in events}
@@ -149,7 +150,8 @@ def run(ctx, replay):
             events = events + [f]
 
     verdicts, accepted = vtable.validate_rows(ctx, "DmarcTrace", TRACE_CFG % dict(open=q(open_by_dev)),
-                                              events, batch=20000, par=6, timeout=1800)
+                                              events, batch=20000 if thorough else 7000, par=6, timeout=1800)
+    ctx.log("TLC evaluated %d recorded rows: %d accepted as conforming" % (len(events), accepted))
     for t, what in selftest.items():
         v = verdicts.get(t)
         if not v or not v["viol"] or v["devs"]:
